@@ -78,14 +78,30 @@ def prims():
             a = ip.read(st, a[1], a[2])
         return [(st, "ret", a)]
 
-    def fmax(ip, st, args, info):
-        return [(st, "ret", ("app", "max", (args[0], args[1])))]
+    def lattice(op):
+        def h(ip, st, args, info):
+            a, b = args[0], args[1]
+            # idempotence: max(max(x, c), c) = max(x, c), max(c, c) = c (clamping an already clamped value again)
+            for x, y in ((a, b), (b, a)):
+                if y[0] in ("f", "i") and x == y:
+                    return [(st, "ret", y)]
+                if y[0] in ("f", "i") and x[0] == "app" and x[1] == op and y in x[2]:
+                    return [(st, "ret", x)]
+            return [(st, "ret", ("app", op, (a, b)))]
+        return h
+    fmax, fmin = lattice("max"), lattice("min")
 
-    def fmin(ip, st, args, info):
-        return [(st, "ret", ("app", "min", (args[0], args[1])))]
+    def checked(opname):
+        # usize::checked_add / checked_sub on opaque counters: Some(a op b), or None (the overflowing case)
+        def h(ip, st, args, info):
+            s2 = st.fork()
+            return [(st, "ret", adt("core::option::Option", 1, (("app", opname, (args[0], args[1])),))),
+                    (s2, "ret", adt("core::option::Option", 0, ()))]
+        return h
     return {"<alloc::rc::Rc as core::ops::deref::Deref>::deref": rc_deref,
             "core::f64::<impl f64>::max": fmax, "core::f64::<impl f64>::min": fmin,
-            "std::f64::<impl f64>::max": fmax, "std::f64::<impl f64>::min": fmin}
+            "std::f64::<impl f64>::max": fmax, "std::f64::<impl f64>::min": fmin,
+            "core::num::<impl usize>::checked_sub": checked("Sub"), "core::num::<impl usize>::checked_add": checked("Add")}
 
 
 def interp_for(prog):
@@ -363,16 +379,18 @@ def check_helpers(chk, prog):
             chk.inst("metric-helper-shape", fn, False, detail="could not be analysed: %s" % e)
             continue
         probs = []
-        if len(outs) != 1:
-            probs.append("%d normal outcomes" % len(outs))
+        if not outs:
+            probs.append("no normal outcome")
         for o in outs:
+            # a path on which the helper has established that its argument is 0 may leave the counters alone
+            zero_arg = any(r == frozenset("=") and {a, b} == {("sym", "n"), I(0)} for (a, b), r in o.st.cons.items())
             for n in names:
                 if n == "pacing":
                     continue
                 v = field(prog, o.st, n)
                 if n in want:
                     # exactly `field (+|-) n` (checked / unchecked / saturating forms of the same operation accepted)
-                    ok = _is_op(v, want[n], n)
+                    ok = _is_op(v, want[n], n) or (zero_arg and v == ("sym", n))
                     if not ok:
                         probs.append("`%s` becomes `%s`, specification says %s(%s, n)" % (n, fmt(v), want[n], n))
                 elif v != ("sym", n):
